@@ -10,6 +10,17 @@ For a source automaton X (DFA or NFA, non-empty language):
       implementation chose) is evaluated on the same source; its expression AST is matched (proved
       derivative matcher) against the source on all words up to length K - this must agree, it is what
       the theorems say - and against the NFA compiled from s (differences only counted as structural).
+  (4) the string-level mirror model (Model/GNFAStr.v, wire ops 3/4): the source is sent with its rows in the
+      iteration order of the implementation's own dicts, together with the iteration order of the candidate
+      dict of every _find_min_connected_node call (recorded by re-evaluating the helper's own set expression on
+      the same objects). Compared: the sequence of ripped states (the model's degree rule must pick the same
+      state; otherwise counted as structural and the model is re-run along the implementation's order) and the
+      returned STRING, literally. The model's own string is also run through the model of the library's parser
+      and compiler and compared with the source by the proved comparator (what C12_dfa_to_regex /
+      C12_nfa_to_regex state; a failure there is a defect of the model). A literal difference of the strings is
+      a correspondence failure: the implementation's string is then judged by the model parser + comparator;
+      a violation only when it is rejected or denotes another language, otherwise counted in
+      structural_differences.
 """
 from __future__ import annotations
 
@@ -27,7 +38,9 @@ RULE = ("valid DFAs and NFAs with non-empty language, 1-5 states, alphabets of 1
         "with parallel and cyclic empty-string edges, empty-string paths that bypass a state next to a parallel symbol "
         "edge, states without a row, final initial state; a hand-written corpus runs first. Per case: to_regex() must "
         "return a string, the library's parser must accept it, and the compiled NFA must have exactly the source's "
-        "language (proved comparator, all words). distinct = canonical source automaton; non-trivial = at least 2 "
+        "language (proved comparator, all words); the string is also compared literally with the string-level mirror "
+        "model run under the recorded candidate orders (and the sequence of ripped states with the model's). "
+        "distinct = canonical source automaton; non-trivial = at least 2 "
         "states and (for NFAs) an empty-string edge or a nondeterministic choice, (for DFAs) a cycle or >= 3 states")
 
 K = 5  # word length bound of the AST-level cross checks
@@ -286,10 +299,7 @@ def check(ctx, kind, sdef, tag):
                 if sem:
                     problems.extend(f"(string model {mstr!r}) " + x for x in sem)
                 else:
-                    ctx.structural += 1
-                    ctx.note_structural = getattr(ctx, "note_structural", [])
-                    if len(ctx.note_structural) < 5:
-                        ctx.note_structural.append({"source": repr(sdef), "implementation": s, "model": mstr})
+                    ctx.structural += 1   # same language, accepted by the parser: a literal difference only
 
     ctx.case((kind, enc.tree(tsrc)), nontrivial,
              sample={"kind": kind, "source": repr(sdef), "regex": s, "rip_order": [repr(q) for q in order],
